@@ -87,8 +87,10 @@ func (lib *KnowledgeLibrary) LoadKnowledgeBaseFromReader(reader io.Reader, overw
 	}()
 
 	catalog := &Catalog{}
+	// a complete catalog is always read without error; io.EOF means the stream ends at a field
+	// boundary before its end, and used to yield a knowledge base with missing working memory.
 	err := catalog.ReadCatalogFromReader(reader)
-	if err != nil && err != io.EOF {
+	if err != nil {
 
 		return nil, err
 	}
